@@ -506,7 +506,8 @@ def write_evidence(mod, prop, tier, seed, total, n_nontrivial, wall, nviol, nsha
     cov = {
         "evaluations": total.evaluations,
         "distinct_nontrivial": n_nontrivial,
-        "rule": mod.RULE,
+        "rule": mod.RULE + (" One additional shard of half a shard's budget runs the same strategy and oracle in a `python -O` child "
+                            "(assert statements of the code under test stripped)." if total.counters.get("cases_under_python_O") else ""),
         "samples": samples,
         "labels": dict(sorted(total.labels.items())),
         "counters": dict(sorted(total.counters.items())),
